@@ -157,8 +157,34 @@ def history(rng, nops=(2, 8), invalid_share=0.3, dtype_focus=False):
                 ops.append({"op": "invalid", "what": "merge_frac", "h": h})
             continue
         kind = rng.choice(["fill", "fill", "fill_n", "fill_n", "iadd", "add", "imul", "mul", "idiv", "div", "normalize",
-                           "merge", "set_dtype", "copy", "slice", "sub", "set_arr"])
+                           "merge", "set_dtype", "copy", "slice", "sub", "set_arr", "retype"])
         tags.append(kind)
+        if kind == "retype" or (dtype_focus and kind == "copy" and rng.random() < 0.5):
+            # the same kind of call before and after an explicit change of the content type: whatever the first call settled
+            # (a promotion, a cached decision) must be settled again for the second one
+            tags.append("retype_motif")
+            wk = rng.choice(["pyfloat", "float32", "float64", "pyint", "int32"])
+            isf = "float" in wk
+            v1 = vals_near(rng, b, pairs, w, 1)[0]
+            v2 = vals_near(rng, b, pairs, w, 1)[0]
+            first = rng.choice(["fill", "fill", "fill_n", "imul"])
+            if first == "fill":
+                ops.append({"op": "fill", "h": h, "v": None if v1 is None else rs(v1), "w": rs(2.0 if isf else 2), "wk": wk})
+            elif first == "fill_n":
+                ops.append({"op": "fill_n", "h": h, "vs": gen1.enc_vals([v1]), "ws": [rs(2.0 if isf else 2)],
+                            "wkind": {"pyfloat": "float64", "pyint": "int64"}.get(wk, wk)})
+            else:
+                ops.append({"op": "imul", "h": h, "c": "2", "k": wk})
+            ops.append({"op": "set_dtype", "h": h, "dtype": rng.choice(["int64", "int32", "int16", "float32", "float16"]),
+                        "maybe_refused": True, "via_property": rng.random() < 0.5})
+            if first == "fill_n":
+                ops.append({"op": "fill_n", "h": h, "vs": gen1.enc_vals([v2]), "ws": [rs(0.5 if isf else 3)],
+                            "wkind": {"pyfloat": "float64", "pyint": "int64"}.get(wk, wk)})
+            elif first == "imul":
+                ops.append({"op": "imul", "h": h, "c": rs(1.5 if isf else 3), "k": wk})
+            else:
+                ops.append({"op": "fill", "h": h, "v": None if v2 is None else rs(v2), "w": rs(0.5 if isf else 3), "wk": wk})
+            continue
         if kind == "set_arr":
             # the public property setters `h.frequencies = array` / `h.errors2 = array` with an array of any element type
             # (right length known only for static bins; a wrong length / a negative entry is refused)
